@@ -760,6 +760,13 @@ class Engine:
         # conditioned on the guards under which that operand is evaluated at all.
         is_and = isinstance(e.op, ast.And)
         n0 = len(st.pc)
+        if not is_and and len(e.values) == 2 and isinstance(e.values[1], (ast.Dict, ast.List, ast.Tuple)):
+            # ``x or {}`` / ``x or []``: Python's value semantics (the left operand if truthy, else the literal)
+            def first(v, s1):
+                b = self.truth(v)
+                k(v, s1.assume(b))
+                return self.ev(e.values[1], s1.assume(z3.Not(b)), fr, k)
+            return self.ev(e.values[0], st, fr, first)
 
         def finish(res, s, guard_pos):
             s2 = s.fork()
